@@ -34,6 +34,7 @@ def pEv : Tok Ev := do
     let t ← Tok.int; let addr ← Tok.nat; let seen ← pSeen; let draws ← Tok.list Tok.int
     pure (Ev.tcfire t addr seen draws)
   | "qf" => do let t ← Tok.int; let d ← Tok.bool; pure (Ev.qfire t d)
+  | "qr" => do let t ← Tok.int; let d ← Tok.bool; let recs ← Tok.natList; pure (Ev.qremove t d recs)
   | _ => failure
 
 def idsStr (l : List Nat) : String := natListStr (sortN l)
@@ -74,12 +75,14 @@ def c12run (toks : List String) : String :=
 inductive QOp where
   | add (clock now draw : Int) (answers : Dict)
   | fire (now : Int)
+  | remove (clock : Int) (recs : List Nat)
 
 def pQOp : Tok QOp := do
   let k ← Tok.next
   match k with
   | "a" => do let c ← Tok.int; let n ← Tok.int; let d ← Tok.int; let a ← pDict; pure (QOp.add c n d a)
   | "f" => do let n ← Tok.int; pure (QOp.fire n)
+  | "r" => do let c ← Tok.int; let recs ← Tok.natList; pure (QOp.remove c recs)
   | _ => failure
 
 def dictStr (d : Dict) : String :=
@@ -102,6 +105,11 @@ def runQ (p : QP) : Queue → List QOp → List String → List String
       let (q', b) := q.ready n
       let bs := match b with | some b => dictStr b | none => "none"
       runQ p q' ops (s!"{qStr q'} {bs}" :: acc)
+    else (s!"reject" :: acc).reverse
+  | q, .remove c recs :: ops, acc =>
+    if (match q.timer with | some due => decide (c ≤ due) | none => true) then
+      let q' := q.removeRecords recs
+      runQ p q' ops (s!"{qStr q'}" :: acc)
     else (s!"reject" :: acc).reverse
 
 /-- `c12q <delayed> <ops>`: the real queue parameters (`out_queue` / `out_delay_queue`) -/
